@@ -38,8 +38,19 @@ def generate(seed, tier):
         cfg_kwargs={"want": want, "force": {"long_text_p": 0.0}})
     from whoosim.session import cfg_from_record
     cfg = cfg_from_record(rec["config"])
+    if r.random() < 0.35:
+        # a bulk transaction first: posting lists that span several (small)
+        # blocks, so that the limited access paths really prune
+        from whoosim.workload import DocGen
+        br = random.Random("%s/bulk" % seed)
+        dg = DocGen(cfg, br, nkeys=12)
+        dg.next_uid = 100000
+        bulk = [["writer", {}]] + [["add", dg.doc(sparse_p=0.1)] for _ in range(br.randint(30, 70))] + [["commit", {"merge": "none"}]]
+        rec["ops"] = bulk + rec["ops"]
+        rec["config"]["blocklimit"] = br.choice((1, 2, 3, 4, 8))
     qr = random.Random("%s/queries" % seed)
-    rec["queries"] = [Q.gen_query(qr, cfg, depth=qr.choice((1, 2, 2, 3))) for _ in range(10)]
+    rec["queries"] = ([Q.gen_query(qr, cfg, depth=qr.choice((1, 2, 2, 3))) for _ in range(7)]
+                      + [Q.gen_shaped_query(qr, cfg) for _ in range(3)])
     return rec
 
 
